@@ -296,8 +296,33 @@ func importPremises(c *Ctx, rule, prefix, why string, keep func(o *Ob) bool, run
 		if detail == "" {
 			detail = why
 		}
-		ob := r.Check(rule, o.Func, prefix+o.Construct, 0, o.Verdict == "discharged", detail)
+		ob := r.Check(rule, o.Func, prefix+"["+o.Rule+"] "+o.Construct, 0, o.Verdict == "discharged", detail)
 		ob.Pos = o.Pos
 	}
 	return n
+}
+
+// importCellText: renderers print Cell.String(); that this is the item's own text, for the item as supplied, is
+// C01's business. Its text rules are restated as a premise of the renderer's content rule.
+func importCellText(c *Ctx, rule string, withEmpty bool) {
+	importPremises(c, rule, "cell-text premise ", "the renderer prints whatever text the cell holds", func(o *Ob) bool {
+		switch o.Rule {
+		case "R01.2", "R01.3", "R01.5":
+			return true
+		case "R01.4":
+			return withEmpty
+		}
+		return false
+	}, func() { runC01(c) })
+}
+
+// importWriteDiscipline: "whenever rendering succeeds the output is ..." presupposes that a failed write is
+// never reported as success (C15's rule, for this renderer's functions) and that Render hands back exactly what
+// this RenderTo wrote into a buffer of its own (C10's R10.3, for this renderer).
+func importWriteDiscipline(c *Ctx, rule, rel string) {
+	inPkg := func(o *Ob) bool {
+		return strings.Contains(o.Func, rel+".") || strings.Contains(o.Func, "*"+rel+".")
+	}
+	importPremises(c, rule, "write-error premise ", "a write error that is dropped turns truncated output into a successful render", inPkg, func() { runC15(c) })
+	importPremises(c, rule, "own-buffer premise ", "Render must return what this render wrote, nothing left over from another", func(o *Ob) bool { return o.Rule == "R10.3" && inPkg(o) }, func() { runC10(c) })
 }
